@@ -2,7 +2,16 @@
 
 package util
 
+import (
+	"context"
+
+	"github.com/milvus-io/milvus-sdk-go/v2/client"
+)
+
 // verifRange is a no-op unless built with the verif tag (see verif_on.go).
 func verifRange[K comparable, V any](m *Map[K, V], f func(key K, value V) bool) (handled bool, all bool) {
 	return false, false
 }
+
+// verifMilvusClient never provides a client unless built with the verif tag.
+func verifMilvusClient(ctx context.Context, address, token, database string) client.Client { return nil }
